@@ -2,8 +2,7 @@
  *   stump(x) = tables[0] if x(feature) is given and x(feature) < threshold,
  *              tables[1] if x(feature) is given and x(feature) >= threshold, zero if missing;
  *   split() reports group 0 / 1 under the same rule, no group if missing.  The spec function of the rule: */
-#include "wl.h"
-#define NV_STUMP_GROUP(v, thr) (((v) < (thr)) ? 0 : 1)
+#include "wl.h"     /* NV_STUMP_GROUP(v, thr), the spec function of the rule, is shared with dtree.h */
 struct nv_stump { int64_t m_feature; struct nv_t4 m_tables; double m_threshold; };
 static struct nv_row nv_sfw_vector(const struct nv_stump* self, int64_t k) { return nv_t4_vector(&self->m_tables, k); }  /* single_feature_wlearner_t::vector(k) = m_tables.vector(k) */
 
